@@ -187,13 +187,28 @@ impl RADAU {
         // Adjust tolerances
         let expm = 2.0 / 3.0;
         let n = y.len();
-        let mut rtol = rtol;
-        let mut atol = atol;
-        for i in 0..n {
-            let quot = atol[i] / rtol[i];
-            rtol[i] = 0.1 * rtol[i].powf(expm);
-            atol[i] = rtol[i] * quot;
-        }
+        // (a scalar tolerance is one shared value: transform it once, not once per component)
+        let transform = |r: Float, a: Float| {
+            let quot = a / r;
+            let r_new = 0.1 * r.powf(expm);
+            (r_new, r_new * quot)
+        };
+        let (rtol, atol) = match (&rtol, &atol) {
+            (Tolerance::Scalar(r), Tolerance::Scalar(a)) => {
+                let (r_new, a_new) = transform(*r, *a);
+                (Tolerance::Scalar(r_new), Tolerance::Scalar(a_new))
+            }
+            _ => {
+                let mut r_new = Vec::with_capacity(n);
+                let mut a_new = Vec::with_capacity(n);
+                for i in 0..n {
+                    let (r, a) = transform(rtol[i], atol[i]);
+                    r_new.push(r);
+                    a_new.push(a);
+                }
+                (Tolerance::Vector(r_new), Tolerance::Vector(a_new))
+            }
+        };
         #[cfg(feature = "verif-hooks")]
         for i in 0..n {
             crate::verif_hooks::record_radau_tol(i, rtol[i], atol[i]);
